@@ -68,6 +68,11 @@ def user_config_divider(value, config):
     return [value + config['k'], value]
 
 
+def user_both_divider(value, state, config):
+    # receives another variable through its topology and a config
+    return [value + state['other'] + config['k'], value - state['other']]
+
+
 def branch_divider(value):
     # value is the dictionary of the whole branch
     return [{'p': value['p'], 'q': 0}, {'p': 0, 'q': value['q']}]
@@ -98,6 +103,9 @@ def schema():
         'other': {'_default': 0},
         'conf': {'_default': 0, '_divider': {'divider': user_config_divider,
                                               'config': {'k': 5}}},
+        'both': {'_default': 0, '_divider': {
+            'divider': user_both_divider,
+            'topology': {'other': ('..', 'other',)}, 'config': {'k': 3}}},
         'mut': {'_default': {}, '_updater': 'dict_value'},
         'br': {'_divider': branch_divider,
                'p': {'_default': 0}, 'q': {'_default': 0}},
@@ -222,6 +230,7 @@ def part_store(ctx, cfg):
         'set': vals['set'], 'split': split_v, 'zero': vals['zero'],
         'setv': vals['setv'], 'nul': vals['nul'], 'sd': dict(sd),
         'topo': vals['topo'], 'other': vals['other'], 'conf': vals['conf'],
+        'both': vals['zero'],
         'mut': mut, 'br': {'p': vals['p'], 'q': vals['q']},
         'br2': {'p': vals['q'], 'q': vals['p']}}}
     env_vol = [6, 3][ctx.choice('ev', 2)]
@@ -294,6 +303,8 @@ def part_store(ctx, cfg):
     sh += share('topo', vals['topo'] + vals['other'],
                 vals['topo'] - vals['other'])
     sh += share('conf', vals['conf'] + 5, vals['conf'])
+    sh += share('both', vals['zero'] + vals['other'] + 3,
+                vals['zero'] - vals['other'])
     sh += [EQ(s0['br']['p'], vals['p']), EQ(s0['br']['q'], 0),
            EQ(s1['br']['p'], 0), EQ(s1['br']['q'], vals['q'])]
     sh += [EQ(s0['br2']['p'], vals['q'] + 2), EQ(s0['br2']['q'], 0),
